@@ -2,4 +2,5 @@ import Driver.Ops
 import Driver.State
 import Driver.Typed
 import Driver.Upd
+import Driver.Ser
 import Driver.All
